@@ -16,7 +16,7 @@ RULE = ("kinds: arith (every ordered pair of the four spatial-vector classes x l
         "symmetry, sum, I*a, I*v), transform (SE3 * vector = Ad x or Ad' x, class preserved). Vector magnitudes 1e-6..1e6. "
         "Non-trivial: all six components non-zero (vectors), centre of mass != 0 (inertia), rotation and translation both "
         "non-zero (transform).")
-RULE = RULE + probes.RULE_TEXT + probes.VARIANT_TEXT + probes.OWN_TEXT
+RULE = RULE + probes.RULE_TEXT + probes.VARIANT_TEXT + probes.OWN_TEXT + probes.EXTRA_RULES.get(PROPERTY_ID, "")
 ASSUMPTIONS = ["1e-9 relative to the product of operand magnitudes", "reference adjoint from pbt/refs.py"]
 
 VCLASSES = ["SpatialVelocity", "SpatialAcceleration", "SpatialForce", "SpatialMomentum"]
@@ -128,12 +128,12 @@ def _arith(case):
         v = _vals(c, "ctor/6xN", X2, A, m)
         if v is not None:
             c.eq("ctor/6xN/value", v, np.array(xs), 0)
-    if m == 1:
-        ok, X3 = c.lib("ctor/copy", lambda: getattr(L, A)(X))
-        if ok:
-            v = _vals(c, "ctor/copy", X3, A, 1)
-            if v is not None:
-                c.eq("ctor/copy/value", v, np.array(xs), 0)
+    ok, X3 = c.lib("ctor/copy", lambda: getattr(L, A)(X))
+    if ok:
+        v = _vals(c, "ctor/copy", X3, A, m)
+        if v is not None:
+            c.eq("ctor/copy/value", v, np.array(xs), 0)
+            c.true("ctor/copy/own_list", X3.data is not X.data, "the copy shares its value list with the original")
     ok, N = c.lib("neg", lambda: -X)
     if ok:
         v = _vals(c, "neg", N, A, m)
